@@ -239,6 +239,7 @@ CHECKS = {
         "units": [
             unit("denied", "^TestC08Denied$", 0, 0, shards=(8, 8)),
             unit("concurrent", "^TestC08Concurrent$", 0, 0, shards=(4, 4)),
+            unit("heavy", "^TestC08Heavy$", 0, 0, shards=(4, 4)),
             unit("census", "^TestC08Census$", 0, 0, shards=(8, 8)),
             unit("random-builtins", "^TestC08AllBuiltins$", 4, 40, shards=(8, 16)),
         ],
